@@ -136,6 +136,28 @@ PROPS = {
         ],
         "assumptions": ASSUME_COMMON,
     },
+    "C07": {
+        "level": "exploration",
+        "design_ref": "§6 C07",
+        "level_text": L_EXPL + "; the published document of a 54-operation API zoo is replayed against the live server: document-derived positives (200 quick / 4000 thorough per operation), pagination follow-ups, omitted-required negatives, framework errors; every response validated against the documented status, content type and schema",
+        "level_note": "fixed zoo, no generated programs; trusts python-jsonschema (Draft4 + nullable + dropshot's formats); no undeclared properties are sent; page tokens are only ones the server issued; documented response headers are counted, not judged; wildcard paths and HEAD are not exercised; unknown formats are inconclusive",
+        "technique": "runtime monitoring: document-as-specification replay against the running server with an independent JSON-Schema validator",
+        "engines": [
+            {"name": "c07", "bin": "vmon_oas", "package": "oas", "floor": (5000, 60)},
+        ],
+        "assumptions": ASSUME_COMMON,
+    },
+    "C08": {
+        "level": "translation_validation",
+        "design_ref": "§6 C08",
+        "level_text": "translation validation: for every program (corpus type at each legal placement site, or run-time dynamic schema) the schemars openapi3 source schema and the published schema are compared pointer-wise, and judged by independent Draft7/Draft4 validators on generated instances and near-miss mutations; held on the programs and instances explored",
+        "level_note": "trusts python-jsonschema; nullable:true is read as 'accepts null' on both sides; dynamic schemas are restricted to the derive-expressible fragment; formats are compared structurally only; known syntactic mappings (exclusive bounds, definitions vs components, const vs one-value enum) are treated as equal; tuple arrays / type arrays / NonZeroI* are outside the supported domain",
+        "technique": "runtime translation validation of gen_openapi/j2oas_* via a harness JsonSchema type with run-time schemas, a compiled type corpus, structural pointer comparison and differential validation with jsonschema",
+        "engines": [
+            {"name": "c08", "bin": "vmon_oas", "package": "oas", "floor": (50000, 300)},
+        ],
+        "assumptions": ASSUME_COMMON,
+    },
     "C06": {
         "level": "exploration",
         "design_ref": "§6 C06",
